@@ -170,7 +170,13 @@ def check(prop, tier, seed):
         mods = core.local_import_closure(list(getattr(mod, 'LEAN_TARGETS', [f'Props.{prop}'])))
         okc, outc, dtc = core.leanchecker(mods)
         lc_info = dict(modules=mods, ok=okc, wall_s=round(dtc, 1))
-        if not okc:
+        if not okc and outc.startswith('killed (signal'):
+            # infrastructure: the re-checker was killed (memory pressure from other processes). The obligations stand on `lake build` +
+            # `#print axioms`, which did complete; the evidence records that the independent re-check did not run to the end.
+            print(f"NOTE property={prop} leanchecker re-check not completed ({outc[:40].strip()}); the kernel check by `lake build` stands")
+            lc_info['ok'] = None
+            lc_info['note'] = 'killed by a signal (out of memory); not completed'
+        elif not okc:
             if 'does not exist' in outc or 'No such file' in outc:
                 # infrastructure (a compiled file is missing, e.g. a concurrent rebuild): the check is broken, not the property
                 print(outc[-500:])
